@@ -49,6 +49,7 @@ func c05Witness(r *Run) {
 			fmt.Sprintf("submit=%s PDU()=%s", got, fmtDeliveries(app)), "Submit returns the enquire_link_resp with sequence 7; PDU() yields nothing")
 	}
 	r.Case("witness D25 "+input, w.CaseExpr(connVariant))
+	r.Case("hypotheses-of-C05 hold on witness D25", w.EnvExpr(connVariant))
 }
 
 func c05Scenario(r *Run, ts []pduType, idx, maxCallers int) {
@@ -161,6 +162,7 @@ func c05Scenario(r *Run, ts []pduType, idx, maxCallers int) {
 			fmtDeliveries(got), fmtDeliveries(wantApp))
 	}
 	r.Case(fmt.Sprintf("sched#%d %.200s", idx, input), w.CaseExpr(connVariant))
+	r.Case(fmt.Sprintf("hypotheses-of-C05 hold on sched#%d", idx), w.EnvExpr(connVariant))
 }
 
 // Resp(): sequence number copied, command_id = request id with the top bit set.
